@@ -8,9 +8,9 @@ THEOREMS = ['Bluebell.C04_hier_keyword_table', 'Bluebell.C04_speech_keyword_tabl
 
 
 def strip(t):
-    """drop meta blocks, eIds and the derived `by` attribute"""
+    """drop meta blocks and eIds (a derived `by` attribute is ignored by first_diff; an explicit one is compared)"""
     tag, attrs, kids = t
-    a = {k: v for k, v in attrs.items() if k not in ('eId', 'by')}
+    a = {k: v for k, v in attrs.items() if k != 'eId'}
     return [tag, a, [k if isinstance(k, str) else strip(k) for k in kids if isinstance(k, str) or k[0] != 'meta']]
 
 
@@ -19,7 +19,8 @@ def first_diff(want, got, path='$'):
         return '' if want == got else f'at {path}: expected {want!r}, got {got!r}'[:300]
     if want[0] != got[0]:
         return f'at {path}: expected <{want[0]}>, got <{got[0]}>'
-    if want[1] != got[1]:
+    ga = {k: v for k, v in got[1].items() if k != 'by' or 'by' in want[1]}   # `by` derived from the FROM line is not specified here
+    if want[1] != ga:
         return f'at {path}/<{want[0]}>: attributes expected {want[1]}, got {got[1]}'
     for i, (x, y) in enumerate(zip(want[2], got[2])):
         d = first_diff(x, y, f'{path}/{want[0]}[{i}]')
